@@ -173,10 +173,18 @@ class RaterMemo:
 
     def get(self, regressor, training_set="zef18", names=None, lda=None):
         key = (regressor, self.ts_key(training_set),
-               None if names is None else tuple(names), lda)
+               None if names is None else tuple(names), lda,
+               self.defaults_key(regressor))
         if key not in self.memo:
             self.memo[key] = self.build(regressor, training_set, names, lda)
         return self.memo[key]
+
+    @staticmethod
+    def defaults_key(regressor):
+        """The library's *current* default keywords of the regressor (a
+        construction is only reused while they are what they were)."""
+        from nanite.rate.regressors import reg_dict
+        return repr(reg_dict.get(regressor))
 
     def build(self, regressor, training_set, names, lda):
         """The library's own convenience constructor (code under test)."""
@@ -186,6 +194,10 @@ class RaterMemo:
 
 
 class ReferenceRaterMemo(RaterMemo):
+    @staticmethod
+    def defaults_key(regressor):
+        return "pristine"
+
     """Reference raters are assembled by the harness from the documented
     pieces (regressor table, training-set loader, IndentationRater), not
     through get_rater: a label is a label only if the argument *is* one of
@@ -205,7 +217,8 @@ class ReferenceRaterMemo(RaterMemo):
                 path = training_set
             ts = nr.IndentationRater.load_training_set(path=path,
                                                        names=names)
-        cls, kw = reg_dict[regressor]
+        pristine = seams._PRISTINE.get("nanite.rate.regressors.reg_dict")
+        cls, kw = (pristine[0] if pristine else reg_dict)[regressor]
         return nr.IndentationRater(regressor=cls(**dict(kw)),
                                    training_set=ts, names=names, lda=lda)
 
@@ -283,6 +296,14 @@ def apply_op(idnt, op, log=None):
                         q.set(min=op.get("to", -1e9))
                     elif attr == "vary":
                         q.set(vary=not q.vary)
+                    elif attr == "expr":
+                        # constrain the parameter to its current value by an
+                        # expression (or release it again): the value stays,
+                        # the setting changes
+                        if q.expr is None:
+                            q.set(expr=repr(float(q.value)))
+                        elif nm != "E1":
+                            q.set(expr="", vary=False)
                     new = cur
                 elif key == "range_x":
                     new = [float(x) for x in cur]
@@ -539,6 +560,21 @@ def gen_pipeline(rng, full_bias=0.5):
     return out
 
 
+def legal_permutation(rng, steps):
+    """The same steps in another order that still satisfies the required
+    predecessors (a different pipeline with an equal step set)."""
+    out, rest = [], list(steps)
+    while rest:
+        ready = [x for x in rest
+                 if all(r in out for r in REQUIRES.get(x, []))]
+        if not ready:
+            return list(steps)
+        x = rng.choice(ready)
+        out.append(x)
+        rest.remove(x)
+    return out
+
+
 def gen_options(rng, steps, allow_invalid=False):
     opts = {}
     if "correct_tip_offset" in steps and rng.random() < 0.5:
@@ -586,6 +622,12 @@ def gen_invalid_request(rng):
              "correct_tip_offset"]
     if rng.random() < 0.6:
         steps.append("correct_force_slope")
+    if r < 0.8:
+        # rejected with TypeError after earlier steps edited the data
+        opts = {"correct_tip_offset": rng.choice(
+            [{"methd": "gradient_zero_crossing"}, None,
+             {"method": "fit_constant_line", "extra": 1}])}
+        return steps, opts
     return steps, gen_options(rng, steps, allow_invalid=True)
 
 
@@ -715,7 +757,8 @@ def gen_nudge(rng):
     else:
         op["param"] = rng.choice(["E", "contact_point", "baseline", "R",
                                   "nu"])
-        op["attr"] = rng.choice(["value", "value", "max", "min", "vary"])
+        op["attr"] = rng.choice(["value", "value", "max", "min", "vary",
+                                 "expr"])
         op["delta"] = rng.choice([1e-9, 1e-6, -1e-7, 1e-12])
         if op["attr"] == "max":
             op["to"] = rng.choice([1e9, 1e12, 1e6])
@@ -935,6 +978,8 @@ class CurveEngineC03:
         # the plateau scan of the default settings makes 100 fits; keep the
         # runs short by bounding it (a tuning knob, randomised per run by
         # the ops themselves)
+        seams.snapshot_globals()
+        seams.restore_globals()
         idnt = curves.make_curve(cfg)
         FRESH_MEMO.clear()
         FRESH_OBJ_MEMO.clear()
@@ -986,11 +1031,53 @@ class CurveEngineC03:
                     probes["relative-cp fit claimed"] += 1
                 if idnt.fit_properties.get("gcf_k", 1) != 1:
                     probes["fit with gcf_k != 1 claimed"] += 1
+            g = seams.changed_global()
+            if g is not None:
+                violation = make_violation(
+                    self.prop, "R1", f"shared-defaults-modified:{g}",
+                    settings_features(idnt, op, outcome),
+                    f"the operation modified the module-level table {g}: "
+                    f"later curves in this process would see other defaults",
+                    i)
+                break
             violation = check_r1(self.prop, idnt, cfg, op, outcome, i)
             oracle_checks += 1
             if violation is None:
                 violation = check_r2(self.prop, idnt, op, outcome, i)
                 oracle_checks += 1
+            if violation is None and op["op"] == "fit" and \
+                    outcome.get("ok") and "hash" in idnt.fit_properties \
+                    and "params_initial" not in op.get("kw", {}):
+                # R2b: the very same call again (also with the segment
+                # given by name instead of number): no optimisation,
+                # nothing changes. (Calls that pass params_initial are left
+                # out: None means "forget my parameters", and a parameter
+                # spec is re-evaluated against the stored ones.)
+                again = {"op": "fit", "kw": copy.deepcopy(op.get("kw", {}))}
+                seg = again["kw"].get("segment")
+                if seg in (0, 1) and not isinstance(seg, bool) \
+                        and i % 2 == 0:
+                    again["kw"]["segment"] = ["approach", "retract"][seg]
+                elif seg in ("approach", "retract") and i % 2 == 0:
+                    again["kw"]["segment"] = ["approach",
+                                              "retract"].index(seg)
+                before = observe(idnt)
+                o2 = apply_op(idnt, again)
+                oracle_checks += 1
+                feats2 = settings_features(idnt, op, outcome)
+                feats2["segment_form"] = str(type(
+                    again["kw"].get("segment")).__name__)
+                if o2.get("minimize_calls"):
+                    violation = make_violation(
+                        self.prop, "R2", "same-call-reoptimised", feats2,
+                        f"repeating fit_model({again['kw']}) with unchanged "
+                        f"settings made {o2['minimize_calls']} optimiser "
+                        f"calls", i)
+                elif o2.get("ok") and observe(idnt) != before:
+                    violation = make_violation(
+                        self.prop, "R2", "same-call-changed", feats2,
+                        "repeating the identical fit_model call changed "
+                        "the object", i)
             if violation is not None:
                 break
         return {"violation": violation, "log_digest": core.digest(log),
@@ -1223,10 +1310,20 @@ class CurveEngineC06:
                 base.pop("enum_faults", None)
                 base["route"] = rng.choice(["apply", "apply", "fit_kw",
                                             "attr", "details"])
+                if rng.random() < 0.4 and len(base["steps"]) > 1:
+                    # same step set, other legal order: another pipeline
+                    if ops and ops[-1].get("steps") != base["steps"]:
+                        ops.append(copy.deepcopy(base))
+                    base["steps"] = legal_permutation(rng, base["steps"])
                 ops.append(base)
                 continue
+            was_invalid = False
             if swarm["invalid"] and rng.random() < 0.3:
                 steps, options = gen_invalid_request(rng)
+                was_invalid = True
+            elif rng.random() < 0.12:
+                # the empty pipeline, explicitly
+                steps, options = [], rng.choice([None, {}])
             else:
                 steps = gen_pipeline(rng, full_bias=0.3)
                 options = gen_options(rng, steps)
@@ -1234,6 +1331,16 @@ class CurveEngineC06:
                   "route": rng.choice(["apply", "apply", "fit_kw", "attr",
                                        "details"]),
                   "steps": steps, "options": options}
+            if was_invalid and rng.random() < 0.4:
+                # what a user does next: fit on another axis (records the
+                # default, empty pipeline), then ask for the raw data
+                ops.append(op)
+                recent.append(op)
+                ops.append({"op": "fit", "kw": {"x_axis":
+                                                "height (measured)"}})
+                ops.append({"op": "prep", "route": "apply", "steps": [],
+                            "options": rng.choice([None, {}])})
+                continue
             if swarm["faults"] and rng.random() < 0.3:
                 op["fault"] = {
                     "seam": rng.choice(["poc", "poc", "poc_dfb", "smooth",
@@ -1718,6 +1825,13 @@ class CurveEngineC09:
                 ops.append(op)
             elif r < 0.84:
                 ops.append(gen_setfp(rng))
+            elif r < 0.86:
+                reg = rng.choice(["Extra Trees", "Decision Tree",
+                                  "Random Forest"])
+                ops.append({"op": "get_rater_kw", "regressor": reg,
+                            "kw": rng.choice([{"max_depth": 3},
+                                              {"min_samples_leaf": 20},
+                                              {"random_state": 7}])})
             elif r < 0.88:
                 ops.append({"op": "mutate_ts",
                             "ts": rng.choice(["held:small", "held:copy"]),
@@ -1738,8 +1852,13 @@ class CurveEngineC09:
         seams.install_sim_model()
         seams.install_lmfit_determinism()
         seams.install_rater_memo(RATERS)
-        with core.Scratch("c09") as scratch:
-            res = self._execute(run, scratch)
+        seams.snapshot_globals()
+        seams.restore_globals()
+        try:
+            with core.Scratch("c09") as scratch:
+                res = self._execute(run, scratch)
+        finally:
+            seams.restore_globals()
         if run["config"].get("xproc") and res["violation"] is None \
                 and not run.get("_child"):
             res["violation"] = self.cross_process(run, res)
@@ -1769,6 +1888,27 @@ class CurveEngineC09:
         changed = 0
         held = {}
         for i, op in enumerate(run["ops"]):
+            if op["op"] == "get_rater_kw":
+                # someone uses the public convenience constructor with own
+                # regressor keywords; later ratings must not be affected
+                import nanite.rate
+                try:
+                    with warnings.catch_warnings():
+                        warnings.simplefilter("ignore")
+                        nanite.rate.get_rater(op["regressor"], **op["kw"])
+                except _caught():
+                    pass
+                probes["get_rater called with own regressor keywords"] += 1
+                g = seams.changed_global()
+                if g is not None:
+                    violation = make_violation(
+                        self.prop, "Q6", f"shared-defaults-modified:{g}",
+                        {"regressor": op["regressor"]},
+                        f"get_rater({op['regressor']!r}, **{op['kw']}) "
+                        f"modified the module-level table {g}: every later "
+                        f"rating in this process uses other defaults", i)
+                    break
+                continue
             if op["op"] == "mutate_ts":
                 for hk, (X, y) in held.items():
                     if hk[0] == op["ts"]:
@@ -1969,6 +2109,25 @@ class CurveEngineC09:
                     f"rate_quality returned {val!r}, the standalone rater "
                     f"on a fresh copy gives {exp2!r}", i)
                 break
+            # Q7: a feature selection is a set - the same names in sorted
+            # order give the same rating
+            if names is not None and list(names) != sorted(names):
+                kw7 = dict(kw, names=sorted(names))
+                o7 = apply_op(idnt, {"op": "rate", "kw": dict(
+                    kw7, training_set=ts_ref)})
+                # put the cache back to the request under test
+                apply_op(idnt, {"op": "rate", "kw": dict(
+                    kw, training_set=ts), "_alias":
+                    tsname.startswith("held:")})
+                cache_ref = (key, prep_epoch)
+                probes["same selection in another order"] += 1
+                if o7.get("ret") != outcome.get("ret"):
+                    violation = make_violation(
+                        self.prop, "Q2", "names-order", feats,
+                        f"names {names} rated {outcome.get('ret')}, the "
+                        f"same selection sorted {o7.get('ret')} / "
+                        f"{o7.get('exc')}", i)
+                    break
             # Q4 range
             if reg in RANGE_CHECKED and not (val == -1 or 0 <= val <= 10):
                 violation = make_violation(
@@ -2415,7 +2574,8 @@ def c10_gen_scenario(rng, sid):
         ops.append({"op": "new", "slot": s, "what": "trainset",
                     "spec": {"step": rng.choice([3, 4])}})
         ops.append({"op": "fit", "args": {}})
-        reg = rng.choice(["Decision Tree", "Extra Trees"])
+        reg = rng.choice(["Decision Tree", "Extra Trees",
+                          "SVR (linear kernel)", "SVR (RBF kernel)"])
         ops.append({"op": "rate", "args": {"regressor": reg,
                                            "training_set": {"slot": s}}})
         ops.append({"op": "mutate", "slot": s, "edit": {
@@ -2554,6 +2714,8 @@ class CurveEngineC10:
         seams.install_lmfit_determinism()
         seams.install_rater_memo(RATERS)
         cfg = run["config"]["curve"]
+        seams.snapshot_globals()
+        seams.restore_globals()
         worlds = [(curves.make_curve(cfg), Caller(True)),
                   (curves.make_curve(cfg), Caller(False))]
         FRESH_MEMO.clear()
@@ -2600,6 +2762,12 @@ class CurveEngineC10:
                 if violation:
                     break
             if violation:
+                break
+            g = seams.changed_global()
+            if g is not None:
+                violation = make_violation(
+                    self.prop, "A2", f"shared-defaults-modified:{g}", feats,
+                    f"{op['op']} modified the module-level table {g}", i)
                 break
             # A4: what a call returns must not be a view of an argument
             if oa.get("aliases_arg") or ov.get("aliases_arg"):
